@@ -360,8 +360,12 @@ Definition all_scenarios : list scenario :=
 
 Lemma all_scenarios_complete : forall sc, In sc all_scenarios.
 Proof.
-  intros [k st tc b2 u].
-  destruct k, st, tc, b2, u; cbv; tauto.
+  intros [k st tc b2 u]. unfold all_scenarios.
+  apply in_flat_map; exists k; split; [destruct k; simpl; tauto|].
+  apply in_flat_map; exists st; split; [destruct st; simpl; tauto|].
+  apply in_flat_map; exists tc; split; [destruct tc; simpl; tauto|].
+  apply in_flat_map; exists b2; split; [destruct b2; simpl; tauto|].
+  apply in_map_iff; exists u; split; [reflexivity|destruct u; simpl; tauto].
 Qed.
 
 (* ---------- observations on states ---------- *)
